@@ -16,6 +16,39 @@ CHECKS = {
  "C10": ("exploration", "property-based set-equality check against a reference relation (proptest)",
          "Random target path sets and uses entries of every listed shape; the index's edge set (hook) and the rendered dot file (CLI) must equal dep(T,U) in both directions.",
          "trusts model::dep and the index_edges hook (read accessor of the adjacency list)", "4/C10"),
+ "C02": ("exploration", "stateful model-based property testing (proptest op sequences against a repository-history model)",
+         "Generated histories of create/edit/delete/move/stage/commit operations on a real git repository, mirrored in a model of commit trees, index and working tree, with interleaved checkpoint placements and `analyze --changes [--begin/--end]` observations compared as sets with the model.",
+         "trusts the history model in harness/src/hist.rs and git itself; mode changes, rm --cached, symlinks and names with newlines are outside the generated domain", "4/C02"),
+ "C04": ("exploration", "property-based testing over schedules with a trace-based ordering invariant (proptest + helper executable traces)",
+         "Generated acyclic configurations, selection modes, command/sequence lists and child run-time assignments; the helper executable every command runs records CLOCK_MONOTONIC start/end, and the invariant start(T) >= end(U) is checked for every dependency pair and consecutive commands.",
+         "time stamps are taken inside the child (start after spawn, end before exit), so a correct scheduler cannot alarm; overlaps shorter than process start-up can be missed", "4/C04"),
+ "C05": ("exploration", "property-based differential testing of run against analyze and a closure model (proptest + traces)",
+         "Generated configurations x repository states x commands (some undefined) x selection modes; result document, `analyze --target-groups` taken immediately before, model closure and helper start records must agree exactly.",
+         "all helpers exit 0; new file names are ASCII", "4/C05"),
+ "C06": ("fault_enumeration", "fault-injection property testing (proptest over fault placements and injected delays) + deterministic delay sweep",
+         "Generated plan shapes with 0-3 faults of every kind at any position, --fail-on-undefined, child timings and delays injected at guarded points of the run's own bookkeeping; flag, exit status, skipped-ness and truthfulness of every status are judged against the helper traces.",
+         "internal schedules are steered through delay points and TOKIO_WORKER_THREADS, not owned; siblings of a failed task are judged for truthfulness only", "4/C06"),
+ "C07": ("exploration", "stateful model-based property testing (proptest op sequences, hot-file round trips)",
+         "History prefix, `checkpoint update -p`, later edits and repeated updates on a real repository; after every update analyze and run must be empty, after every later operation the re-flagged targets must equal the model (pending map computed by the harness, not read back).",
+         "trusts the history model and model::affected; edits always produce never-seen content", "4/C07"),
+ "C11": ("exploration", "property-based testing against an argv/cwd/resolution model (proptest + helper start records)",
+         "Generated target layouts, command definitions of every kind, decoys, base/named/missing argmap files, --argmaps/--no-base-argmaps/--args with awkward argument strings; every started process must match the model's (exe, cwd, argv).",
+         "--args values never start with '-'; no two files share a stem in one command directory", "4/C11"),
+ "C12": ("exploration", "stateful model-based property testing (run histories against a ring model)",
+         "Histories of up to 3M+3 runs for M in 1..5 with differing commands, targets, outputs and failures; after every run result show, log show and log show --id are compared with the model of the ids in use; directory count bounded.",
+         "a run's id is read from its printed document; failing runs use -t so that no sibling is cancelled", "4/C12"),
+ "C16": ("exploration", "property-based testing with rendezvous (barrier) helpers",
+         "Groups of 2..24 (quick) / 2..64 (thorough) members at varying plan positions, commands and tokio worker counts; all members wait for each other's start; completion is required.",
+         "liveness approximated by a 30 s barrier time-out confirmed with 60 s", "4/C16"),
+ "C17": ("fault_enumeration", "tamper enumeration (one edit at every offset of a small triple) + property-based sampling of tampers on large configs",
+         "After the real `config generate`, every API must work on the untouched triple and must fail without acting after any single XOR/truncate/append tamper of source, generated file or lockfile, at offsets incl. the 8 KiB buffer boundaries.",
+         "two of nine APIs are exercised per tamper (rotating); lockfile edits that keep the checksum value are not judged", "4/C17"),
+ "C18": ("exploration", "metamorphic property testing (re-serialisation of one JSON value)",
+         "A valid configuration value is written in 4-8 serialisations (whitespace, key order, escapes, padding to sizes around and far beyond 8 KiB) by the harness's own writer; config show, target show -g and analyze --target-groups must give JSON-equal output and equal exit status.",
+         "validity of the value is established through the in-process hook; the writer is self-checked by parsing its output back", "4/C18"),
+ "C19": ("exploration", "stateful model-based property testing (Option<checkpoint> model)",
+         "Generated sequences of commits, edits, updates (no flags / --id sha / --id token / -p), show, delete, out delete --all, analyze and run; show must equal the last update's result, updates without --id must record git's HEAD, and without a checkpoint analyze/run must cover every target.",
+         "analyze/run are judged only in the no-checkpoint state here", "4/C19"),
 }
 
 NOT_YET = {}
